@@ -457,7 +457,7 @@ func checkC11(tier string) {
 		}
 	}
 	// (2) library level, plain and under the race detector
-	nl := r.Pick(1500, 100000)
+	nl := r.Pick(1500, 40000)
 	onDeath := func(i int, co mon.ChildOut, hang *mon.Rec) bool {
 		r.Violate("library-worker-died:"+co.Death, mon.PanicExcerpt(co.Tail, 10), map[string]interface{}{"case": i})
 		return true
